@@ -41,6 +41,18 @@ def families(tier):
         out.append(dict(prop='C14', family='c14.burst.' + ('in_handler' if src != 'main' else 'main'), id=f'c14/K{K}-h{hist}-{src}-b{int(backlog)}-r{int(reoffer)}', cfg=cfg,
                         params=dict(K=K, hist=hist, src=src, reoffer=reoffer),
                         scn=dict(buses={'A': dict(hist=hist)}, order=['A'], handlers=hs, main=main, actors=[], forwards=[], settle=3.0, no_watch=True)))
+    # the capacity boundary raced by an external dispatcher: its dispatches land between any two steps of the handlers (busy choice points on)
+    for hist, src in itertools.product((5, 50), ('main', 'async')):
+        hs = [dict(bus='A', pat='X', name='hx', prog=[('ret', 1)], kind='sync'), dict(bus='A', pat='Y', name='hy', prog=[('pause',)])]
+        if src == 'main':
+            main = [('burst', 'A', 'X', 48), ('pause',), ('burst', 'A', 'X', 4), ('pause',), ('idle', 'A'), ('reoffer', 'A'), ('idle', 'A')]
+        else:
+            hs.append(dict(bus='A', pat='P', name='hp', prog=[('burst', 'A', 'X', 47), ('pause',), ('burst', 'A', 'X', 4), ('pause',)]))
+            main = [('disp', 'A', 'P', 'ff'), ('pause',), ('idle', 'A'), ('reoffer', 'A'), ('idle', 'A')]
+        actors = [[('disp', 'A', 'Y1', 'ff'), ('pause',), ('disp', 'A', 'Y2', 'ff'), ('disp', 'A', 'Y3', 'ff')]]
+        out.append(dict(prop='C14', family='c14.burst.raced', id=f'c14/raced-h{hist}-{src}', cfg=dict(bound=2 if deep else 1, cap=6000 if deep else 700, window=0.25, max_targets=1, busy=True),
+                        params=dict(K=52, hist=hist, src=src, reoffer=True),
+                        scn=dict(buses={'A': dict(hist=hist)}, order=['A'], handlers=hs, main=main, actors=actors, forwards=[], settle=3.0, no_watch=True)))
     return out
 
 
